@@ -2,6 +2,7 @@ import OrsoVerif.Lemmas.Validate
 import OrsoVerif.Lemmas.Family
 import OrsoVerif.Lemmas.RowClass
 import OrsoVerif.Lemmas.Layout
+import OrsoVerif.Generated.RecordUse
 /-!
 # C05 — Validation accepts exactly conforming records; append is atomic
 
@@ -939,5 +940,52 @@ example :
         = ([[some "str"]], .ok)
     ∧ appendK [⟨"c0", some "VARCHAR", true, []⟩] [] Kind.dict [("c0", some "str")] (Layout.sizableBy false 5)
         = ([], .unsizable) := by decide
+
+/-! ## 11. the caller's record object (round 6)
+
+`validate` and `append` are handed an object the caller keeps and may edit afterwards.  Everything above takes a record as a
+value; that is the code's behaviour only if the code (a) keeps neither the object nor a live view of it beyond the call — a
+remembered `data.keys()` changes when the caller adds a key —, (b) does not write into it, and (c) `append` validates and
+stores the record it was given, not the record merged with something else (the defaults a column declares). -/
+
+/-- Decided on the facts regenerated from the source: no statement of `validate` / `append` keeps the record object or a
+live view of it in `self`, a column, the class or a module-level name; none writes into it; `append` does not put a merge of
+the record with other data in its place; `validate` and the row constructor are handed the same name. -/
+theorem record_use_sound :
+    Gen.RecordUse.recordRetained = [] ∧ Gen.RecordUse.recordWrittenTo = [] ∧ Gen.RecordUse.recordRewritten = []
+    ∧ Gen.RecordUse.validatesWhatItStores = true := by decide
+
+/-- What `append` would do if it merged declared defaults into the record first (the shape of C05-w7s3): the record it
+validates is `r ++` the defaults of the columns `r` lacks. -/
+def mergeDefaults (s : List Column) (d : Record) (r : Record) : Record :=
+  r ++ d.filter fun kv => decide (kv.1 ∈ names s) && (lookup kv.1 r).isNone
+
+/-- Merging nothing is the identity: with no declared defaults the merged append is `append`. -/
+theorem mergeDefaults_nil (s : List Column) (r : Record) : mergeDefaults s [] r = r := by
+  simp [mergeDefaults]
+
+/-- The statement is false of an `append` that merges defaults first: for the one-column schema `c0` (nullable, untyped) whose
+column declares a default, the empty record does not validate (`c0` is missing) — `append` must refuse it and leave the rows
+as they are — but the merged record validates and a row holding a value that is not in the record is stored. -/
+theorem defaults_merged_counterexample :
+    let s : List Column := [⟨"c0", none, true, []⟩]
+    let d : Record := [("c0", some "str")]
+    validate s [] = .invalid ["c0"] [] []
+    ∧ append s [] [] true = ([], .rejected (.invalid ["c0"] [] []))
+    ∧ append s [] (mergeDefaults s d []) true = ([[some "str"]], .ok) := by
+  decide
+
+/-- What `validate` would do if it skipped the excess check for a record whose keys equal the keys it remembers (the shape of
+C05-w7s2, where the remembered keys are a live view of the caller's object and so always equal the keys of that object). -/
+def validateSkipping (s : List Column) (r : Record) : Outcome :=
+  validate s (r.filter fun kv => decide (kv.1 ∈ names s))
+
+/-- The statement is false of it: the caller's object `{a}` validates, the caller adds the key `comment`, and the same
+object — whose keys the live view now shows — is accepted although `validate` names `comment` as excess. -/
+theorem retained_view_counterexample :
+    let s : List Column := [⟨"a", none, true, []⟩]
+    let r : Record := [("a", some "int"), ("comment", some "str")]
+    validate s r = .excess ["comment"] ∧ validateSkipping s r = .ok := by
+  decide
 
 end C05
